@@ -44,6 +44,17 @@ pub(crate) mod verif_value {
     // ------------------------------------------------------------------ C02: literals evaluate to themselves
     /// `Parsed::from_value(v)` for a value that is not an operation is `Raw` holding THE POINTER v, and
     /// evaluating it returns that same pointer whatever the data is: nothing inside is looked at.
+    fn same_literal(a: &Value, b: &Value) -> bool {
+        match (a, b) {
+            (Value::Null, Value::Null) => true,
+            (Value::Bool(x), Value::Bool(y)) => x == y,
+            (Value::Number(x), Value::Number(y)) => x == y,
+            (Value::String(x), Value::String(y)) => x.len() == y.len(),
+            (Value::Array(x), Value::Array(y)) => x.len() == y.len(),
+            (Value::Object(x), Value::Object(y)) => x.len() == y.len(),
+            _ => false,
+        }
+    }
     fn check_literal(v: &Value, data: &Value) {
         let p = MD::new(Parsed::from_value(v));
         match &*p {
@@ -51,17 +62,30 @@ pub(crate) mod verif_value {
                 assert!(std::ptr::eq(r.value, v), "C02: a literal must be kept as the very value that was given");
                 let e = MD::new(r.evaluate(data));
                 match &*e {
+                    // the literal itself (borrowed) ...
                     Ok(Evaluated::Raw(out)) => assert!(std::ptr::eq(*out, v), "C02: a literal evaluates to itself, whatever the data"),
-                    _ => assert!(false, "C02: evaluating a literal must return the literal (borrowed), not a new value or an error"),
+                    // ... or - equally fine for the property - a copy: same kind, same scalar / same number spelling / same
+                    // length (strings and containers are compared by length only: equality of heap data is not tractable here)
+                    Ok(Evaluated::New(out)) => assert!(same_literal(out, v), "C02: a literal evaluates to itself (structurally identical, same number spelling), whatever the data"),
+                    _ => assert!(false, "C02: evaluating a literal must not be an error"),
                 }
             }
             _ => assert!(false, "C02: a value that is not a single-key object keyed by an operator name was not parsed as a literal"),
+        }
+    }
+    /// contract stub: `to_number_value` is some JSON number or an error - a literal must not depend on it
+    pub(crate) fn any_number_value_stub(_x: f64) -> Result<Value, Error> {
+        if kani::any() {
+            Ok(Value::Number(Number::from(kani::any::<i64>())))
+        } else {
+            Err(Error::UnexpectedError(String::new()))
         }
     }
     macro_rules! literal_harness {
         ($name:ident, $mk:expr) => {
             #[cfg_attr(kani, kani::proof)]
             #[cfg_attr(kani, kani::stub(std::fmt::format, crate::verif_support::fmt_stub))]
+            #[cfg_attr(kani, kani::stub(crate::value::to_number_value, any_number_value_stub))]
             pub(crate) fn $name() {
                 let v = MD::new($mk);
                 let data = MD::new(Value::Number(any_number()));
@@ -72,22 +96,22 @@ pub(crate) mod verif_value {
             }
         };
     }
-    //@ob name=C02.literal.null harness=k_c02_literal_null props=C02,C01 strength=complete fns=value::Parsed::from_value,value::Raw::from_value,value::Raw::evaluate replay=generic stubs=1 timeout=200
+    //@ob name=C02.literal.null harness=k_c02_literal_null props=C02,C01 strength=complete fns=value::Parsed::from_value,value::Raw::from_value,value::Raw::evaluate stubs=2 timeout=200
     //@ desc="null is parsed as a literal holding the same pointer and evaluates to that pointer for every data"
     literal_harness!(k_c02_literal_null, Value::Null);
-    //@ob name=C02.literal.bool harness=k_c02_literal_bool props=C02,C01 strength=complete fns=value::Parsed::from_value,value::Raw::from_value,value::Raw::evaluate replay=generic stubs=1 timeout=200
+    //@ob name=C02.literal.bool harness=k_c02_literal_bool props=C02,C01 strength=complete fns=value::Parsed::from_value,value::Raw::from_value,value::Raw::evaluate stubs=2 timeout=200
     //@ desc="every boolean is a literal"
     literal_harness!(k_c02_literal_bool, Value::Bool(kani::any()));
-    //@ob name=C02.literal.number harness=k_c02_literal_number props=C02,C01 strength=complete fns=value::Parsed::from_value,value::Raw::from_value,value::Raw::evaluate replay=generic stubs=1 timeout=200
+    //@ob name=C02.literal.number harness=k_c02_literal_number props=C02,C01 strength=complete fns=value::Parsed::from_value,value::Raw::from_value,value::Raw::evaluate stubs=2 timeout=200
     //@ desc="every JSON number (any i64 / u64 / finite f64) is a literal"
     literal_harness!(k_c02_literal_number, Value::Number(any_number()));
-    //@ob name=C02.literal.string harness=k_c02_literal_string props=C02,C01 strength=bounded bound="strings of 2 symbolic ASCII bytes (e.g. \"==\", \"if\": operator names as strings are not operations)" fns=value::Parsed::from_value,value::Raw::from_value,value::Raw::evaluate replay=generic stubs=1 timeout=200
+    //@ob name=C02.literal.string harness=k_c02_literal_string props=C02,C01 strength=bounded bound="strings of 2 symbolic ASCII bytes (e.g. \"==\", \"if\": operator names as strings are not operations)" fns=value::Parsed::from_value,value::Raw::from_value,value::Raw::evaluate stubs=2 timeout=200
     //@ desc="a string, even one spelling an operator name, is a literal"
     literal_harness!(k_c02_literal_string, Value::String(any_ascii_string::<2>()));
-    //@ob name=C02.literal.array harness=k_c02_literal_array props=C02,C01 strength=bounded bound="the arrays [] and [\"==\", null]" fns=value::Parsed::from_value,value::Raw::from_value,value::Raw::evaluate replay=generic stubs=1 timeout=200
+    //@ob name=C02.literal.array harness=k_c02_literal_array props=C02,C01 strength=bounded bound="the arrays [] and [\"==\", null]" fns=value::Parsed::from_value,value::Raw::from_value,value::Raw::evaluate stubs=2 timeout=200
     //@ desc="an array is a literal: nothing inside it is parsed or evaluated"
     literal_harness!(k_c02_literal_array, if kani::any() { Value::Array(Vec::with_capacity(1)) } else { Value::Array(vec![Value::String(String::from("==")), Value::Null]) });
-    //@ob name=C02.literal.empty_object harness=k_c02_literal_empty_object props=C02,C01 strength=bounded bound="the value {}" fns=value::Parsed::from_value,value::Raw::from_value,value::Raw::evaluate replay=generic stubs=1 timeout=200
+    //@ob name=C02.literal.empty_object harness=k_c02_literal_empty_object props=C02,C01 strength=bounded bound="the value {}" fns=value::Parsed::from_value,value::Raw::from_value,value::Raw::evaluate stubs=2 timeout=200
     //@ desc="the empty object is a literal"
     literal_harness!(k_c02_literal_empty_object, Value::Object(serde_json::Map::new()));
 
